@@ -74,6 +74,11 @@ extra = {"C08": "yes: downloads after an abandoned earlier transfer on the same 
          "R14C12": "yes: a transfer whose steps are separated by 20..300 plain requests on other keys of the same endpoint, compared with its solo run; live state that vanishes while other keys are in use is reported under C12 as well as C20",
          "R14C18": "yes: the newline option set again (to the same value) between links under every fault position",
          "R14C19": "caught at once, by a measure taken while the change was being written: paths of 300 segments and segments of 256 / 400 bytes in set_path",
+         "R15C04": "yes: the public HeaderRaw::serialize_into driven directly on buffers of every fill state (length 0..9, spare capacity 0..8) as a judged event of Trace_Wire: four bytes appended, refusal below capacity 4, length never above capacity",
+         "R15C10": "yes: `HintOk` holds after intercept_response as well: the remembered client preference survives a reply (a second reply to the same request must still honour it)",
+         "R15C15": "yes: sequence numbers that are not boundaries - all bytes different (0x01020304, 0x01000100, ...) and random ones of every length - in the notification builder's recorder",
+         "R15C17": "caught at once: the position check compares collect() (fold-based) with to_cow / to_string at every position; a check of count / last / nth / fold / size_hint and of a clone taken half-way had just been added too",
+         "R15C20": "yes: a call whose visible result (outcome, reply, request payload) is exactly what a pre-state forbidden by the expiry would produce and what no admissible pre-state produces is a C20 rejection, wherever the implementation keeps that state (the hidden snapshot need not agree)",
          "R4C12": "yes: the two entry points of an exchange as separate steps with equal message ids on different endpoints (model MODE split, deferred responses in the mixed driver); a disturbed other key is reported under C12 in every branch",
          "C20": "yes: expiry under block-wise traffic on other keys (model `Other` now block-wise; driver scenario `expiry-traffic`)"}
 for d in sorted(glob.glob(os.path.join(ROOT, "seeded", "*", "meta.json"))):
